@@ -244,6 +244,65 @@ theorem performInclude_caps (instr tmplAe cost limit : Nat) (newBlocks : Nat →
   · simp only [hlim, if_false, withExec] at hok ⊢
     exact hc _ _ hok
 
+/-- the hypotheses on the templates an include may evaluate -/
+def ChoiceOk : Choice → Prop
+  | .found _ _ _ body => TopClosureOnly body ∧ KeepsOuter body
+  | _ => True
+
+/-- the include statement gives the state back — frames with their closure attachment, depth,
+instructions, escape mode, current block, block table, loaded templates — on every way through it:
+a template was evaluated (successfully or not), the lookup failed, or nothing was found and the
+statement did nothing -/
+theorem includeStmt_restores (cost limit : Nat) (ignoreMissing : Bool) (choices : List Choice)
+    (h : ∀ c ∈ choices, ChoiceOk c) : ∀ (tried : Nat) (s : St) (o : Out),
+    Same (includeStmt cost limit ignoreMissing choices tried s o).2.1 s := by
+  induction choices with
+  | nil => intro tried s o; unfold includeStmt; split <;> exact same_refl s
+  | cons c rest ih =>
+    intro tried s o
+    cases c with
+    | notString => exact same_refl s
+    | loadError => exact same_refl s
+    | missing =>
+      simp only [includeStmt]
+      exact ih (fun c hc => h c (List.mem_cons_of_mem _ hc)) _ s o
+    | found instr ae nb body =>
+      simp only [includeStmt]
+      have hc := h _ (List.mem_cons_self ..)
+      exact performInclude_restores instr ae cost limit nb body hc.1 hc.2 s o
+
+/-- when no template is evaluated the output is not touched either -/
+theorem includeStmt_noop (cost limit : Nat) (ignoreMissing : Bool) (choices : List Choice)
+    (h : ∀ c ∈ choices, ∀ i a nb b, c ≠ .found i a nb b) : ∀ (tried : Nat) (s : St) (o : Out),
+    (includeStmt cost limit ignoreMissing choices tried s o).2.1 = s ∧
+    (includeStmt cost limit ignoreMissing choices tried s o).2.2 = o := by
+  induction choices with
+  | nil => intro tried s o; unfold includeStmt; split <;> exact ⟨rfl, rfl⟩
+  | cons c rest ih =>
+    intro tried s o
+    cases c with
+    | notString => exact ⟨rfl, rfl⟩
+    | loadError => exact ⟨rfl, rfl⟩
+    | missing =>
+      simp only [includeStmt]
+      exact ih (fun c hc => h c (List.mem_cons_of_mem _ hc)) _ s o
+    | found instr ae nb body => exact absurd rfl (h _ (List.mem_cons_self ..) instr ae nb body)
+
+/-- with `take_closure()` hoisted in front of the candidate loop, an include that finds nothing and
+is forgiven (`ignore missing`) succeeds and leaves the closure of the including frame detached -/
+theorem hoisted_take_closure_loses_closure :
+    ∃ (s : St) (o : Out),
+      (includeStmtHoisted 10 500 true [.missing] s o).1 = .ok ∧
+      ¬ Same (includeStmtHoisted 10 500 true [.missing] s o).2.1 s ∧
+      Same (includeStmt 10 500 true [.missing] 0 s o).2.1 s := by
+  refine ⟨{ frames := [⟨1, some 7⟩], outerDepth := 0, instructions := 0, autoEscape := 0,
+            currentBlock := none, blocks := fun _ => none, loaded := [], pool := 0 }, ⟨0⟩, ?_, ?_, ?_⟩
+  · simp [includeStmtHoisted, includeStmtHoisted.go]
+  · intro h
+    have := h.1
+    simp [includeStmtHoisted, includeStmtHoisted.go, setTopClosure] at this
+  · simp [includeStmt, same_refl]
+
 /-- returning early on `Err` (before the caller's context is swapped back) is *not* a restore:
 the caller is left with the macro's frames and depth -/
 theorem earlyReturn_does_not_restore :
